@@ -92,16 +92,20 @@ pub proof fn lemma_im_collect_shared_key<K, V>(items: Seq<(K, V)>)
     }
 }
 
-// Iterator::fold with a pure closure: the accumulator is threaded through the items in order. Relational form (closure contracts are
-// relations): `accs` is the chain of accumulators, accs[0] the initial one, accs[k + 1] a result of f(accs[k], item k); the last is returned.
-pub open spec fn fold_chain<T, B, F: Fn(B, T) -> B>(f: F, init: B, xs: Seq<T>, accs: Seq<B>) -> bool {
+// Iterator::fold with a pure closure: the accumulator is threaded through the items in order. Closure contracts are relations, so (as for the
+// adapters of shims/iter.rs) the contract is stated for EVERY relation `step` the closure's post-condition implies: there is a chain of
+// accumulators `accs`, accs[0] the initial one, step(accs[k], item k, accs[k + 1]) for every k, and the last one is returned.
+pub open spec fn fold_chain<T, B>(step: spec_fn(B, T, B) -> bool, init: B, xs: Seq<T>, accs: Seq<B>) -> bool {
     &&& accs.len() == xs.len() + 1 && accs[0] == init
-    &&& forall|k: int| 0 <= k < xs.len() ==> f.ensures((#[trigger] accs[k], xs[k]), accs[k + 1])
+    &&& forall|k: int| 0 <= k < xs.len() ==> step(accs[k], #[trigger] xs[k], accs[k + 1])
+}
+pub open spec fn fold_result<T, B>(step: spec_fn(B, T, B) -> bool, init: B, xs: Seq<T>, r: B) -> bool {
+    exists|accs: Seq<B>| #[trigger] fold_chain(step, init, xs, accs) && r == accs.last()
 }
 impl<T> VIter<T> {
     #[verifier::external_body]
     pub fn fold<B, F: Fn(B, T) -> B>(self, init: B, f: F) -> (r: B)
         requires forall|b: B, x: T| f.requires((b, x)),
-        ensures exists|accs: Seq<B>| #[trigger] fold_chain(f, init, self@, accs) && r == accs.last(),
+        ensures forall|step: spec_fn(B, T, B) -> bool| (forall|b: B, x: T, o: B| f.ensures((b, x), o) ==> step(b, x, o)) ==> #[trigger] fold_result(step, init, self@, r),
     { unimplemented!() }
 }
